@@ -53,6 +53,7 @@ Exc(s, c) ==
     [] c.op = "open_rx_pipe" -> IF ~PipeOk(c.p) THEN "IndexError" ELSE IF Len(c.v) = 0 THEN "ValueError"
                                 ELSE IF Len(c.v) > 5 THEN "any" ELSE "none"
     [] c.op = "open_tx_pipe" -> IF Len(c.v) > 5 \/ Len(c.v) = 0 THEN "any" ELSE "none"
+    [] c.op = "load_ack"     -> IF ~PipeOk(c.p) THEN "IndexError" ELSE IF c.n = 0 \/ c.n > 32 THEN "ValueError" ELSE "none"
     [] c.op = "address"      -> IF c.v > 5 THEN "IndexError" ELSE "none"
     [] OTHER -> "none"
 
@@ -82,6 +83,9 @@ Post(s, u, c) ==
                                               !.feat = SetField(s.feat, 6, 6)]
                         ELSE [s EXCEPT !.feat = SetBit(s.feat, 1, FALSE)]
     [] c.op = "allow_ask_no_ack=" -> [s EXCEPT !.feat = SetBit(s.feat, 0, c.v)]
+    \* load_ack(): "if the ack attribute is not enabled this function enables it" - the configuration afterwards always lets the
+    \* payload ride on an ACK (auto-ack and dynamic payloads on pipe 0, EN_DPL, EN_ACK_PAY); the TX FIFO is not register state
+    [] c.op = "load_ack" -> [s EXCEPT !.aa = SetBit(s.aa, 0, TRUE), !.dyn = SetBit(s.dyn, 0, TRUE), !.feat = SetField(s.feat, 6, 6)]
     [] c.op = "interrupt_config" -> [s EXCEPT !.c = SetField(s.c, 112, (IF c.dr THEN 0 ELSE 64) + (IF c.ds THEN 0 ELSE 32)
                                                                        + (IF c.df THEN 0 ELSE 16))]
     [] c.op = "power=" -> [s EXCEPT !.c = SetBit(s.c, 1, c.v)]
@@ -172,6 +176,7 @@ Owner(c) ==
     [] c.op \in {"payload_length=", "set_payload_length"} -> {"pw"}
     [] c.op = "ack=" -> {"aa", "dyn", "feat"}
     [] c.op = "allow_ask_no_ack=" -> {"feat"}
+    [] c.op = "load_ack" -> {"aa", "dyn", "feat"}
     [] c.op = "open_rx_pipe" -> {"en", "p0", "p1", "p25"}
     [] c.op = "close_rx_pipe" -> {"en"}
     [] c.op = "open_tx_pipe" -> {"txa", "p0", "en"}
